@@ -38,3 +38,58 @@ Definition sites_v1 : list site := [
   mkSite "wrap.ClientServerStream.trailer" KW [("wrap.ClientServerStream.trailerM", MX)] [] [] false "pkg/wrap/stream.go:serverStream.SetTrailer" "pkg/wrap/stream.go:187"
 ].
 Definition table_v1 : table := mkTable sites_v1 [].
+
+(* The rows of three locations as the translator extracts them from the trees of the seeded changes C11-r3-3
+   (c.commits read without the lock on the updates-only path), C11-r3-2 (Send iterates the shared backing array
+   after RUnlock while collect compacts it in place) and C11-r3-1 (header stored after close(headerC)), and from
+   the unchanged tree (seed_fixed_table): kept for C11_seed_classes_refuted. *)
+Definition seed_commits_table : table := mkTable [
+  mkSite "resource.Collection.commits" KW [("resource.Collection.mu", MX)] [] [] false "pkg/resource/collection.go:Collection.Update" "pkg/resource/collection.go:166";
+  mkSite "resource.Collection.commits" KR [("resource.Collection.mu", MX)] [] [] false "pkg/resource/collection.go:Collection.Update" "pkg/resource/collection.go:167";
+  mkSite "resource.Collection.commits" KW [("resource.Collection.mu", MX)] [] [] false "pkg/resource/collection.go:Collection.Delete" "pkg/resource/collection.go:236";
+  mkSite "resource.Collection.commits" KR [("resource.Collection.mu", MX)] [] [] false "pkg/resource/collection.go:Collection.Delete" "pkg/resource/collection.go:237";
+  mkSite "resource.Collection.commits" KR [] [] [] false "pkg/resource/collection.go:Collection.onUpdate" "pkg/resource/collection.go:386";
+  mkSite "resource.Collection.commits" KR [("resource.Collection.mu", MR)] [] [] false "pkg/resource/collection.go:Collection.onUpdate" "pkg/resource/collection.go:391"
+] [
+  
+].
+Definition seed_slice_table : table := mkTable [
+  mkSite "minibus.Bus.listeners[]" KR [] [] [] false "internal/minibus/bus.go:Bus.Send" "internal/minibus/bus.go:26";
+  mkSite "minibus.Bus.listeners[]" KR [("minibus.Bus.listenerM", MX)] [] [] false "internal/minibus/bus.go:Bus.collect" "internal/minibus/bus.go:52";
+  mkSite "minibus.Bus.listeners[]" KW [("minibus.Bus.listenerM", MX)] [] [] false "internal/minibus/bus.go:Bus.collect" "internal/minibus/bus.go:54";
+  mkSite "minibus.Bus.listeners[]" KW [("minibus.Bus.listenerM", MX)] [] [] false "internal/minibus/bus.go:Bus.Listen" "internal/minibus/bus.go:78"
+] [
+  
+].
+Definition seed_header_table : table := mkTable [
+  mkSite "wrap.ClientServerStream.header" KR [] [] ["wrap.ClientServerStream.headerC"] false "pkg/wrap/stream.go:clientStream.Header" "pkg/wrap/stream.go:100";
+  mkSite "wrap.ClientServerStream.header" KR [("wrap.ClientServerStream.headerM", MX)] [BGuard "wrap.ClientServerStream.headerC" "wrap.ClientServerStream.headerM"] [] false "pkg/wrap/stream.go:serverStream.SetHeader" "pkg/wrap/stream.go:167";
+  mkSite "wrap.ClientServerStream.header" KW [("wrap.ClientServerStream.headerM", MX)] [BGuard "wrap.ClientServerStream.headerC" "wrap.ClientServerStream.headerM"] [] false "pkg/wrap/stream.go:serverStream.SetHeader" "pkg/wrap/stream.go:167";
+  mkSite "wrap.ClientServerStream.header" KR [("wrap.ClientServerStream.headerM", MX)] [] [] false "pkg/wrap/stream.go:serverStream.SendHeader" "pkg/wrap/stream.go:186";
+  mkSite "wrap.ClientServerStream.header" KR [("wrap.ClientServerStream.headerM", MX)] [BPO "wrap.ClientServerStream.closedC"; BPO "wrap.ClientServerStream.serverSend"] [] false "pkg/wrap/stream.go:serverStream.SendHeader" "pkg/wrap/stream.go:186";
+  mkSite "wrap.ClientServerStream.header" KW [("wrap.ClientServerStream.headerM", MX)] [] [] false "pkg/wrap/stream.go:serverStream.SendHeader" "pkg/wrap/stream.go:186";
+  mkSite "wrap.ClientServerStream.header" KW [("wrap.ClientServerStream.headerM", MX)] [BPO "wrap.ClientServerStream.closedC"; BPO "wrap.ClientServerStream.serverSend"] [] false "pkg/wrap/stream.go:serverStream.SendHeader" "pkg/wrap/stream.go:186";
+  mkSite "wrap.ClientServerStream.header" KR [] [] ["wrap.ClientServerStream.headerC"] false "pkg/wrap/stream.go:clientStream.Header" "pkg/wrap/stream.go:93"
+] [
+  mkCloser "wrap.ClientServerStream.headerC" [("wrap.ClientServerStream.headerM", MX)] "pkg/wrap/stream.go:serverStream.SendHeader" "pkg/wrap/stream.go:180"
+].
+Definition seed_fixed_table : table := mkTable [
+  mkSite "resource.Collection.commits" KW [("resource.Collection.mu", MX)] [] [] false "pkg/resource/collection.go:Collection.Update" "pkg/resource/collection.go:166";
+  mkSite "resource.Collection.commits" KR [("resource.Collection.mu", MX)] [] [] false "pkg/resource/collection.go:Collection.Update" "pkg/resource/collection.go:167";
+  mkSite "resource.Collection.commits" KW [("resource.Collection.mu", MX)] [] [] false "pkg/resource/collection.go:Collection.Delete" "pkg/resource/collection.go:236";
+  mkSite "resource.Collection.commits" KR [("resource.Collection.mu", MX)] [] [] false "pkg/resource/collection.go:Collection.Delete" "pkg/resource/collection.go:237";
+  mkSite "resource.Collection.commits" KR [("resource.Collection.mu", MR)] [] [] false "pkg/resource/collection.go:Collection.onUpdate" "pkg/resource/collection.go:387";
+  mkSite "minibus.Bus.listeners[]" KR [("minibus.Bus.listenerM", MR)] [] [] false "internal/minibus/bus.go:Bus.Send" "internal/minibus/bus.go:19";
+  mkSite "minibus.Bus.listeners[]" KR [("minibus.Bus.listenerM", MX)] [] [] false "internal/minibus/bus.go:Bus.collect" "internal/minibus/bus.go:53";
+  mkSite "minibus.Bus.listeners[]" KW [("minibus.Bus.listenerM", MX)] [] [] false "internal/minibus/bus.go:Bus.Listen" "internal/minibus/bus.go:79";
+  mkSite "wrap.ClientServerStream.header" KR [] [] ["wrap.ClientServerStream.headerC"] false "pkg/wrap/stream.go:clientStream.Header" "pkg/wrap/stream.go:100";
+  mkSite "wrap.ClientServerStream.header" KR [("wrap.ClientServerStream.headerM", MX)] [BGuard "wrap.ClientServerStream.headerC" "wrap.ClientServerStream.headerM"] [] false "pkg/wrap/stream.go:serverStream.SetHeader" "pkg/wrap/stream.go:167";
+  mkSite "wrap.ClientServerStream.header" KW [("wrap.ClientServerStream.headerM", MX)] [BGuard "wrap.ClientServerStream.headerC" "wrap.ClientServerStream.headerM"] [] false "pkg/wrap/stream.go:serverStream.SetHeader" "pkg/wrap/stream.go:167";
+  mkSite "wrap.ClientServerStream.header" KR [("wrap.ClientServerStream.headerM", MX)] [BGuard "wrap.ClientServerStream.headerC" "wrap.ClientServerStream.headerM"; BPO "wrap.ClientServerStream.closedC"; BPO "wrap.ClientServerStream.headerC"; BPO "wrap.ClientServerStream.serverSend"] [] false "pkg/wrap/stream.go:serverStream.SendHeader" "pkg/wrap/stream.go:180";
+  mkSite "wrap.ClientServerStream.header" KR [("wrap.ClientServerStream.headerM", MX)] [BGuard "wrap.ClientServerStream.headerC" "wrap.ClientServerStream.headerM"; BPO "wrap.ClientServerStream.headerC"] [] false "pkg/wrap/stream.go:serverStream.SendHeader" "pkg/wrap/stream.go:180";
+  mkSite "wrap.ClientServerStream.header" KW [("wrap.ClientServerStream.headerM", MX)] [BGuard "wrap.ClientServerStream.headerC" "wrap.ClientServerStream.headerM"; BPO "wrap.ClientServerStream.closedC"; BPO "wrap.ClientServerStream.headerC"; BPO "wrap.ClientServerStream.serverSend"] [] false "pkg/wrap/stream.go:serverStream.SendHeader" "pkg/wrap/stream.go:180";
+  mkSite "wrap.ClientServerStream.header" KW [("wrap.ClientServerStream.headerM", MX)] [BGuard "wrap.ClientServerStream.headerC" "wrap.ClientServerStream.headerM"; BPO "wrap.ClientServerStream.headerC"] [] false "pkg/wrap/stream.go:serverStream.SendHeader" "pkg/wrap/stream.go:180";
+  mkSite "wrap.ClientServerStream.header" KR [] [] ["wrap.ClientServerStream.headerC"] false "pkg/wrap/stream.go:clientStream.Header" "pkg/wrap/stream.go:93"
+] [
+  mkCloser "wrap.ClientServerStream.headerC" [("wrap.ClientServerStream.headerM", MX)] "pkg/wrap/stream.go:serverStream.SendHeader" "pkg/wrap/stream.go:181"
+].
